@@ -7,6 +7,18 @@ import common as C
 PROP = 'C14'
 LEAN_MODULES = ['PMV.Props.C14']
 PARALLEL = True
+MANIFEST = {
+    'text': 'Kernel-checked theorems (PMV/Props/C14.lean) that the code-shaped element functions and lane reductions of the '
+            'Lean model equal the documented truth tables (Kleene and/or/any/all for every lane length and every mask '
+            'representation branch, strict &,|,^,~, ==/!= table with complement/symmetry/reflexivity, ordered comparisons, '
+            'tvl_ comparisons, truth testing), tied to /repo on every run by a correspondence check that sends the same '
+            'operands to the real polymath code and to the compiled model and diffs canonical outputs (exhaustive over '
+            '{T,F,masked} arrays; all representations; all axes).',
+    'design': 'DESIGN.md §3 C14',
+    'technique': 'Lean 4 proof (truth tables by case analysis, lanes by induction) + model/code correspondence',
+    'note': 'Trusted: Lean kernel; hand-written model Model/Logic3.lean (checked against the code by the correspondence run); '
+            'NumPy axis handling. Empty-lane corner under a scalar True mask is known finding KF-C14-1.',
+}
 RULE = ('exhaustive arrays over {True, False, masked} (quick: 1-D to length 4, 2-D to 2x2; thorough: 1-D to length 7, '
         '2-D to 2x3) x every mask representation x every axis argument for the reductions; generated operand pairs '
         'for element operators and comparisons; a case is non-trivial when at least one element is masked or the '
